@@ -262,6 +262,9 @@ class MappingStorage:
                     oid=oid, serials=(old_tid, serial), data=data)
 
         self._tdata[oid] = data
+        # Never hand out an id that was stored here under an id chosen
+        # elsewhere (copied records, explicitly numbered objects).
+        self._oid = max(self._oid, ZODB.utils.u64(oid))
 
     checkCurrentSerialInTransaction = (
         ZODB.BaseStorage.checkCurrentSerialInTransaction)
